@@ -1,6 +1,7 @@
 #!/usr/bin/env python3
 """runall.py [--tier quick|thorough] [--seeds 1,2,3] [ids...]: run checks on the current tree, print one line each."""
 import subprocess, sys, time, os
+HERE = os.path.dirname(os.path.dirname(os.path.abspath(__file__)))
 args = sys.argv[1:]
 tier = "quick"; seeds = ["1"]; ids = []
 i = 0
@@ -14,7 +15,7 @@ for s in seeds:
     for c in ids:
         t = time.time()
         env = dict(os.environ, VERIF_SEED=s, VERIF_TIER=tier)
-        p = subprocess.run(["bin/check", c, "--tier", tier], cwd="/verif", env=env, capture_output=True, text=True)
+        p = subprocess.run(["bin/check", c, "--tier", tier], cwd=HERE, env=env, capture_output=True, text=True)
         last = [l for l in p.stdout.splitlines() if l.startswith(("OK", "VIOLATION", "INCONCLUSIVE"))]
         print("%s seed=%s tier=%s rc=%d %4.0fs %s" % (c, s, tier, p.returncode, time.time() - t, (last[0][:160] if last else p.stdout[-200:])), flush=True)
         bad += p.returncode != 0
